@@ -246,6 +246,10 @@ class Compiler:
 
 
     def declare_external_symbol(self, location, name, state):
+        if name in self.extern_symbols_mapping and self.extern_symbols_mapping[name][1] == state["internal_symbol_prefix"] + name:
+            # The same definition exported once more by other means, say
+            # 'x::' in a file that also says '.extern all'
+            return
         if name in self.extern_symbols_mapping:
             previous_extern = self.extern_symbols_mapping[name][0]
             reports.error(
